@@ -370,6 +370,9 @@ def half(run, fams, prog):
     """Quick-tier thinning: a seed-dependent half of the programs of the given families (all of them in the thorough tier)."""
     if run.tier == "thorough" or prog.get("fam") not in fams:
         return True
+    meta = prog.get("meta") or {}
+    if prog.get("fam") == "api" and (meta.get("start", "new") != "new" or meta.get("pre", "none") != "none" or meta.get("kind")):
+        return True            # only the plain depth-2 histories are thinned, never the ones that start on a written / decoded packet
     return (zlib.crc32(json.dumps(prog["steps"][:6], sort_keys=True).encode()) + run.seed) % 2 == 0
 
 
